@@ -187,8 +187,11 @@ def leanchecker(modules):
 class Driver:
     """Batch interface to the Lean driver: collect case lines, run once, parse results."""
 
-    def __init__(self, tag):
+    def __init__(self, tag, prop=None):
+        """prop: which property's driver module to run (drivers/Cxx.lean); default: derived from
+        the tag's first three characters, e.g. tag "c05-x" -> C05."""
         self.tag = tag
+        self.prop = (prop or tag[:3]).upper()
         self.lines = []
         self.n = 0
 
@@ -207,7 +210,7 @@ class Driver:
             f.write("\n".join(self.lines) + "\n")
         try:
             with open(inp) as fin:
-                p = subprocess.run(["lake", "env", "lean", "--run", "Driver.lean"], cwd=LEAN,
+                p = subprocess.run(["lake", "env", "lean", "--run", "drivers/%s.lean" % self.prop], cwd=LEAN,
                                    stdin=fin, capture_output=True, text=True, timeout=timeout)
         except subprocess.TimeoutExpired:
             raise Infra("lean driver timed out")
